@@ -112,6 +112,7 @@ TReset ==
   /\ content' = [e \in Entries |-> Line.content[e]]
   /\ compiled' = [e \in Entries |-> NoSnap]
   /\ store' = [k \in Keys |-> Line.store[k]] /\ tree' = [k \in Keys |-> Line.store[k]] /\ backend' = Line.backend
+  /\ nbrs' = Range(Line.nbrs)
   /\ dirty' = FALSE /\ req' = NoReq /\ out' = Nothing /\ n' = 0
   /\ mode' = "ok" /\ scn' = Line.scn
   /\ mcontent' = [e \in Entries |-> Line.content[e]] /\ mdirty' = FALSE /\ mstore' = [k \in Keys |-> Line.store[k]]
